@@ -804,6 +804,7 @@ class Gen:
         # a chain of scopes root -> ... -> leaf, some of them created now, with unrelated operations in between
         top = r.randrange(0, self.nscopes)
         chain = [top]
+        sibs = []
         for _ in range(r.choice([1, 2, 2, 3])):
             if self.nscopes >= self.w["max_scopes"] + 2:
                 break
@@ -814,6 +815,12 @@ class Gen:
                 else:
                     f0 = self.new_fn([], [])
                     self.ops.append({"op": "invoke", "scope": r.choice(chain), "fn": f0, "info": False})
+            if r.random() < 0.4:
+                # a sibling branch created *before* the chain's own child: it comes first when the subtree is walked
+                self.ops.append({"op": "scope", "parent": chain[-1]})
+                self.parents.append(chain[-1])
+                sibs.append((self.nscopes, chain[-1]))
+                self.nscopes += 1
             self.ops.append({"op": "scope", "parent": chain[-1]})
             self.parents.append(chain[-1])
             chain.append(self.nscopes)
@@ -825,6 +832,25 @@ class Gen:
         low = r.choice(chain[1:])                     # the private half of the cycle lives here
         high = r.choice(chain[:chain.index(low)])     # the other half is provided above it
         opt = r.random() < 0.2
+        # a sibling branch below `high` that does not see the private half: whatever the rejected Provide leaves behind in
+        # the scopes checked *before* the one that sees the cycle must not weaken their next check
+        sib = None
+        cands = [sc for (sc, par) in sibs if par in chain[:chain.index(low)] and chain.index(high) <= chain.index(par)]
+        if cands and r.random() < 0.8:
+            sib = r.choice(cands)
+        elif r.random() < 0.4 and self.nscopes < self.w["max_scopes"] + 3:
+            sp = r.choice(chain[:chain.index(low)])
+            self.ops.append({"op": "scope", "parent": sp})
+            self.parents.append(sp)
+            sib = self.nscopes
+            self.nscopes += 1
+        half = None
+        if sib is not None:
+            # one half of a two-constructor cycle inside the sibling branch, registered before the rejection ...
+            (pt, pn) = self.fresh_key(); self.provided.append((sib, pt, pn))
+            (qt, qn) = self.fresh_key(); self.provided.append((sib, qt, qn))
+            self.plain_provide(sib, [self.single_in(qt, qn)], pt, pn)
+            half = (pt, pn, qt, qn)
         first, second = ((low, xt, xn, yt, yn), (high, yt, yn, xt, xn))
         if r.random() < 0.3:
             first, second = second, first
@@ -832,10 +858,17 @@ class Gen:
             self.plain_provide(sc, [self.single_in(dt, dn, optional=opt)], t, n, export=(sc == low and r.random() < 0.1))
             if r.random() < 0.2:
                 self.op_provide()
+        if half is not None:
+            # ... and the other half right after it: this Provide closes a cycle in the sibling branch and must be rejected
+            (pt, pn, qt, qn) = half
+            self.plain_provide(sib, [self.single_in(pt, pn)], qt, qn)
         cons = self.new_fn([self.single_in(xt, xn)], [])
         self.invokers.append((cons, chain[-1]))
         for sc in r.sample(chain, min(len(chain), 2)):
             self.ops.append({"op": "invoke", "scope": sc, "fn": cons, "info": False})
+        if half is not None:
+            c2 = self.new_fn([self.single_in(half[0], half[1])], [])
+            self.ops.append({"op": "invoke", "scope": sib, "fn": c2, "info": False})
 
     # ---- shadowing: one key provided in a scope and in an ancestor, decorated somewhere on the path, consumed below
     def op_shadow_web(self):
